@@ -2,7 +2,7 @@
       receive, wg.Wait) and has not ended can always take a step on its own, with a data choice the model state allows. *)
 From Coq Require Import ZArith List String Bool Lia Permutation.
 From Texel Require Import Pipe.Model Pipe.ProofsBase Pipe.ProofsInv Pipe.ProofsLive Pipe.Skeleton Pipe.SkeletonSem Pipe.SkeletonSim
-  Pipe.ProofsSkeleton Pipe.ConversePc Pipe.ConversePcSn Pipe.ProofsConversePc Pipe.ProofsConversePcSn Pipe.Converse
+  Pipe.ProofsSkeleton Pipe.ConversePc Pipe.ConversePcSn Pipe.ProofsConversePc Pipe.ProofsConversePcSn Pipe.Converse Pipe.ConverseRank
   Pipe.ProofsConverse1 Pipe.ProofsConverse2 Pipe.ProofsConverse4 Pipe.ProofsConverse5 Pipe.ProofsConverse8.
 Import ListNotations.
 Open Scope string_scope.
